@@ -59,6 +59,15 @@ class Run:
         self.rules = {}         # rule id -> text
         self.notes = []
         self._cur = None
+        self.analysis_errors = []
+
+    def guard(self, fn, *args, **kw):
+        """Run one group of rules; an AnalysisError inside it is recorded and the other groups still run."""
+        try:
+            return fn(*args, **kw)
+        except AnalysisError as e:
+            self.analysis_errors.append(str(e))
+            return None
 
     # -- rule bookkeeping
     def rule(self, rid, text):
@@ -161,6 +170,9 @@ def finish(prop, run, tier, seed, t0, explanation, selftest=None, out=print, wri
         'call_sites_unresolved': prog.cg_stats['unresolved'],
         'tree_digest': run.tree.digest,
         'notes': run.notes,
+        'analysis_errors': list(getattr(run, 'analysis_errors', [])),
+        'helpers_inlined': sorted(h for m in run.tree.modules.values() for h in getattr(m, 'inlined', [])),
+        'explanatory_locals_substituted': sum(getattr(m, 'substituted', 0) for m in run.tree.modules.values()),
         'checker_cmd': './check %s --tier %s' % (prop, tier),
         'trusted_base': ASSUMPTIONS,
         'exhaustive': False,
